@@ -531,8 +531,8 @@ void findAndReplaceCnUnitsNames(const XmlNodePtr &node, const std::string &oldNa
 void findAndReplaceComponentCnUnitsNames(const ComponentPtr &component, const std::string &oldName, const std::string &newName);
 size_t getComponentIndexInComponentEntity(const ComponentEntityPtr &componentParent, const ComponentEntityPtr &component);
 IndexStack indexStackOf(const VariablePtr &variable);
-VariablePtr getVariableLocatedAt(const IndexStack &stack, const ModelPtr &model);
-void makeEquivalence(const IndexStack &stack1, const IndexStack &stack2, const ModelPtr &model);
+VariablePtr getVariableLocatedAt(const IndexStack &stack, const ModelConstPtr &model);
+void makeEquivalence(const IndexStack &stack1, const IndexStack &stack2, const ModelPtr &model, const ModelConstPtr &sourceModel);
 IndexStack rebaseIndexStack(const IndexStack &stack, const IndexStack &originStack, const IndexStack &destinationStack);
 void componentNames(const ComponentPtr &component, NameList &names);
 
@@ -854,7 +854,7 @@ void generateEquivalenceMap(const ComponentPtr &component, EquivalenceMap &map, 
     }
 }
 
-VariablePtr getVariableLocatedAt(const IndexStack &stack, const ModelPtr &model)
+VariablePtr getVariableLocatedAt(const IndexStack &stack, const ModelConstPtr &model)
 {
     ComponentPtr component;
     for (size_t index = 0; index < stack.size() - 1; ++index) {
@@ -868,20 +868,27 @@ VariablePtr getVariableLocatedAt(const IndexStack &stack, const ModelPtr &model)
     return component->variable(stack.back());
 }
 
-void makeEquivalence(const IndexStack &stack1, const IndexStack &stack2, const ModelPtr &model)
+void makeEquivalence(const IndexStack &stack1, const IndexStack &stack2, const ModelPtr &model, const ModelConstPtr &sourceModel)
 {
     auto v1 = getVariableLocatedAt(stack1, model);
     auto v2 = getVariableLocatedAt(stack2, model);
-    Variable::addEquivalence(v1, v2);
+    if (sourceModel != nullptr) {
+        // Carry the mapping and connection identifiers of the source model's equivalence over.
+        auto sourceV1 = getVariableLocatedAt(stack1, sourceModel);
+        auto sourceV2 = getVariableLocatedAt(stack2, sourceModel);
+        Variable::addEquivalence(v1, v2, Variable::equivalenceMappingId(sourceV1, sourceV2), Variable::equivalenceConnectionId(sourceV1, sourceV2));
+    } else {
+        Variable::addEquivalence(v1, v2);
+    }
 }
 
-void applyEquivalenceMapToModel(const EquivalenceMap &map, const ModelPtr &model)
+void applyEquivalenceMapToModel(const EquivalenceMap &map, const ModelPtr &model, const ModelConstPtr &sourceModel)
 {
     for (const auto &iter : map) {
         auto key = iter.first;
         auto vector = iter.second;
         for (auto vectorIter = vector.begin(); vectorIter < vector.end(); ++vectorIter) {
-            makeEquivalence(key, *vectorIter, model);
+            makeEquivalence(key, *vectorIter, model, sourceModel);
         }
     }
 }
